@@ -46,6 +46,14 @@ CHECKS = {
             "implementation, fresh ephemeral keys, and the token parameter of the three real request classes.",
             "Token constants are pinned for the pinned WhatsApp version string; urllib/hmac/cryptography are trusted.",
             "5/C20"),
+    "C19": ("fault_enumeration",
+            "Hypothesis-generated configurations through both formats and all load paths (round-trip oracle) + crash-point "
+            "enumeration of the save with a previous-or-new oracle",
+            "Round trip of generated configurations through the real save/load entry points in both formats and the three load "
+            "paths, field by field with byte-identical keys; for saves over an existing profile every distinct on-disk state "
+            "at a C-call boundary is copied and loaded and must equal the previous or the new configuration.",
+            "Crash model is process death at C-call boundaries (no torn writes, no power loss); file-system rename atomicity is trusted.",
+            "5/C19"),
 }
 
 NOT_APPLICABLE = {
